@@ -3,7 +3,8 @@ import itertools
 
 from harness import gen_collections as G
 from harness import gff_check
-from harness.impl_gff import impl_gff_op, arm, enc_quals, enc_rows_line, default_guids, guid_str, ROWTYPES
+from harness.impl_gff import (impl_gff_op, arm, enc_quals, enc_rows_line, enc_coll_body, default_guids, guid_str,
+                              ROWTYPES)
 
 ID = "C11"
 LEAN_MODULE = "BioCantor.Props.C11"
@@ -13,7 +14,7 @@ SPEC_DRIVER = "drivers/SpecC11.lean"
 DRIVER_MODULES = ["BioCantor.Driver.Main", "BioCantor.Driver.Gff"]
 SPEC_DRIVER_MODULES = ["BioCantor.Driver.Main", "BioCantor.Driver.SpecGff"]
 GEN_NEEDS = ["gffEncodingMap", "gffEncodingMapWithComma"]
-MODEL_OPS = {"esckey", "escval", "attrs", "row", "rows"}
+MODEL_OPS = {"esckey", "escval", "attrs", "row", "rows", "gfftext"}
 ERR_CLASS = True
 RULE = ("one case = one operation: an escape call, one GFFAttributes/GFFRow rendering, one export of an explicit-GUID "
         "collection (`rows`), or one generated collection taken through export -> independent checker -> library "
@@ -54,7 +55,7 @@ def nontrivial(line, ans):
         return line if ("\\" in t[1] or any(c in t[1] for c in ";=%,>")) else None
     if op in ("attrs", "row"):
         return line if " 0" != line[-2:] else None
-    if op == "rows":
+    if op in ("rows", "gfftext"):
         return line if ans.count("\\n") >= 4 else None
     if op == "coll":
         return line
@@ -149,6 +150,39 @@ def _rows_case(rng, run, small=False):
     return enc_rows_line(coll, mode, rng.random() < 0.5, par, guids)
 
 
+TEXT_NAMES = ["chrB", "chrA", "chr10", "2", "Chr", "chr_b"]
+
+
+def _text_case(rng, run):
+    """`collection_to_gff3` on 1..3 collections with distinct sequence names: header / pragma / FASTA glue"""
+    n = rng.choice([1, 2, 2, 3])
+    names = rng.sample(TEXT_NAMES, n)
+    add_seq, ordered = rng.random() < 0.6, rng.random() < 0.75
+    kinds = rng.choice(["W", "K", "mixed", "N"] if not add_seq else ["W", "W", "K", "K", "mixed"])
+    chrom_rel = rng.random() < (0.85 if kinds in ("W", "N") else 0.35)
+    parts = []
+    for ci, name in enumerate(names):
+        p = dict(rng.choice(ROWS_PARAMS[:4]))
+        p.update(genome_len=rng.choice([40, 61, 120, 130]), max_tx=2, max_exons=3, seqname=name)
+        if rng.random() < 0.15:
+            p.update(n_genes=0, n_feature_collections=0)            # empty collection: pragma + FASTA only
+        coll = G.gen_collection(rng, p)
+        L = coll["genome_len"]
+        kind = kinds if kinds != "mixed" else rng.choice(["W", "K"])
+        if kind == "W":
+            par, seq = "W", G.genome(L)
+        elif kind == "K":
+            sp = G.span(coll) or (5, 20)
+            cs, ce = rng.randint(max(0, sp[0] - 9), sp[0]), rng.randint(sp[1], min(L, sp[1] + 70))
+            par, seq = f"K {cs} {ce}", G.genome(max(L, ce))[cs:ce]
+        else:
+            par, seq = "N", None
+        parts.append(f"{arm(seq)} " + enc_coll_body(coll, par, default_guids(coll, base=1000 * (ci + 1))))
+        run.count(f"gfftext:par={kind}")
+    run.count(f"gfftext:collections={n}/addseq={int(add_seq)}/ordered={int(ordered)}/chromrel={int(chrom_rel)}")
+    return (f"gfftext {int(add_seq)} {int(ordered)} {int(chrom_rel)} {rng.choice('01')} {n} " + " ".join(parts))
+
+
 COLL_COMBOS = [("1", "chrom", "W"), ("0", "chrom", "W"), ("1", "chunk", "K"), ("0", "chunk", "K"),
                ("0", "chrom", "K"), ("0", "chrom", "N")]
 # documented refusals: chromosome coordinates + sequences on a chunk; chunk-relative without a chunk; FASTA without
@@ -195,6 +229,9 @@ def cases(run):
     for i in range(600 if quick else 6000):
         yield _rows_case(rng, run, small=(i % 3 == 0))
     yield f"rows chrom 1 chr1 N 0"                     # empty collection: header only
+    # (b) the whole file: header, ##sequence-region, per-collection row blocks ordered by sequence name, ##FASTA ----
+    for _ in range(250 if quick else 3000):
+        yield _text_case(rng, run)
     # (b)(c)(d) generated collections through the whole pipeline ---------------------------------------------------
     per = 20 if quick else 150
     for profile in gff_check.PROFILES:
